@@ -294,6 +294,9 @@ func (it *Interp) intrinsic(name string, fn *ssa.Function, a []Val) Val {
 			it.ex.cfg.MaxEnum = 40
 		case "structured-keys":
 			it.ex.cfg.StructuredKeys = true
+		case "abstract-all-dependencies":
+			// every dependency function that has no model and is not executable returns an arbitrary value of its type
+			it.autoAll = true
 		case "no-injective-sprintf":
 			it.ex.cfg.InjectiveSprintf = false
 		default:
@@ -314,7 +317,7 @@ func (it *Interp) intrinsic(name string, fn *ssa.Function, a []Val) Val {
 // autoModel handles calls without a model or body.
 func (it *Interp) autoModel(fn *ssa.Function, args []Val) (Val, bool) {
 	key := funcKey(fn)
-	if it.inInit > 0 || autoOpaque[key] || it.abstracted[key] {
+	if it.inInit > 0 || autoOpaque[key] || it.abstracted[key] || (it.autoAll && !isTeleportPkg(fn.Pkg)) {
 		it.ex.noteAuto(key)
 		res := fn.Signature.Results()
 		switch res.Len() {
